@@ -78,6 +78,8 @@ type translator struct {
 	ifaceRes map[string]*types.Signature
 
 	idioms      map[string]string
+	timeOps     map[string]bool
+	civilOps    map[string]bool
 	missing     []string
 	sourceFiles []string
 }
@@ -86,7 +88,7 @@ func newTranslator(fset *token.FileSet, csm, qz *pkgInfo, repo string) *translat
 	return &translator{fset: fset, csm: csm, qz: qz, repo: repo,
 		fns: map[*types.Func]*fnInfo{}, methods: map[string]*fnInfo{}, structSet: map[string]bool{},
 		devirt: map[string]string{}, borrowed: map[string]bool{}, dispUsed: map[string]bool{},
-		idioms: map[string]string{}, ifaceRes: map[string]*types.Signature{}}
+		idioms: map[string]string{}, ifaceRes: map[string]*types.Signature{}, timeOps: map[string]bool{}, civilOps: map[string]bool{}}
 }
 
 func (t *translator) miss(s string) {
